@@ -72,6 +72,12 @@ func TestC02_KnownProbes(t *testing.T) {
 		{findingClipSimple, "get-point-clipby", []string{"POINT", "0.5", "0"}, []string{"GET", theKey, "p", "CLIPBY", "TILE", "1", "1", "1"}},
 		// a point inside a stored circle's disc but outside the box of its 64-gon
 		{findingCircleBox, "stored-circle-east-rim", []string{"OBJECT", `{"type":"Feature","geometry":{"type":"Point","coordinates":[10,60]},"properties":{"type":"Circle","radius":100000,"radius_units":"m"}}`}, []string{"POINT", "60.01225974875774", "11.798864868826337"}},
+		// a circle nested in a FeatureCollection, against another circle that overlaps it only in the part of its
+		// disc outside the 64-gon's box (circle-vs-circle tests compare centre distances): object side and query side
+		{findingNested, "stored-featurecollection-of-circle", []string{"OBJECT", `{"type":"FeatureCollection","features":[{"type":"Feature","geometry":{"type":"Point","coordinates":[10,60]},"properties":{"type":"Circle","radius":100000,"radius_units":"m"}}]}`}, []string{"CIRCLE", "60.01225974875774", "11.799", "10"}},
+		{findingNested, "query-featurecollection-of-circle", []string{"OBJECT", `{"type":"Feature","geometry":{"type":"Point","coordinates":[11.799,60.01225974875774]},"properties":{"type":"Circle","radius":10,"radius_units":"m"}}`}, []string{"OBJECT", `{"type":"FeatureCollection","features":[{"type":"Feature","geometry":{"type":"Point","coordinates":[10,60]},"properties":{"type":"Circle","radius":100000,"radius_units":"m"}}]}`}},
+		// (point-vs-nested-circle is consistent: the collection's own child search uses the same polygon boxes)
+		{findingNested, "nested-circle-vs-point", []string{"OBJECT", `{"type":"FeatureCollection","features":[{"type":"Feature","geometry":{"type":"Point","coordinates":[10,60]},"properties":{"type":"Circle","radius":100000,"radius_units":"m"}}]}`}, []string{"POINT", "60.01225974875774", "11.798864868826337"}},
 		// a stored circle object against a rectangle around it
 		{findingCircleObj, "stored-circle", []string{"OBJECT", `{"type":"Feature","geometry":{"type":"Point","coordinates":[10,60]},"properties":{"type":"Circle","radius":1000,"radius_units":"m"}}`}, []string{"BOUNDS", "59", "9", "61", "11"}},
 		// disc over the pole
@@ -158,6 +164,7 @@ func TestC02_KnownProbes(t *testing.T) {
 	}
 	whats := map[string]string{
 		findingClipSimple: "WITHIN/INTERSECTS key GET key id CLIPBY <rect> does not clip a referenced plain point (clip.Clip has no case for *geojson.SimplePoint): a point outside the rectangle still matches itself, while TEST ... INTERSECTS CLIP / clip.Clip of a *geojson.Point give an empty area: ",
+		findingNested:     "a circle feature nested in a FeatureCollection is indexed / searched by the box of its 64-gon (searchRect only widens a top-level *geojson.Circle), so another circle that overlaps its disc outside that box satisfies TEST (circle-vs-circle compares centre distances) and is missed by the search: ",
 		findingCircle:     "a point inside a CIRCLE's haversine disc but outside the bounding box of its 64-gon is matched by TEST / the predicate and missed by WITHIN/INTERSECTS: ",
 		findingCircleObj:  "a stored circle object (Point feature with properties.type=Circle) satisfies TEST ... WITHIN/INTERSECTS but is never returned by a search (object.IsSpatial() is false for *geojson.Circle, so it is not put into the R-tree): ",
 		findingCircleBox:  "a stored circle object is indexed by the box of its 64-gon, so a query point inside its haversine disc but outside that box satisfies TEST ... INTERSECTS and is missed by the search: ",
